@@ -15,7 +15,7 @@ import traceback
 
 VERIF = os.path.dirname(os.path.dirname(os.path.abspath(__file__)))
 LEAN = os.path.join(VERIF, 'lean')
-DRIVER = os.path.join(LEAN, '.lake', 'build', 'bin', 'driver')
+BIN = os.path.join(LEAN, '.lake', 'build', 'bin')
 EVIDENCE = os.path.join(VERIF, 'evidence')
 REPLAYS = os.path.join(VERIF, 'replays')
 CORPUS = os.path.join(VERIF, 'corpus')
@@ -132,10 +132,11 @@ class ModelError(Exception):
 class Driver:
     """the compiled Lean model behind a one-line-in / one-line-out pipe"""
 
-    def __init__(self):
-        if not os.path.exists(DRIVER):
-            raise InfraError('model driver not built: ' + DRIVER)
-        self.p = subprocess.Popen([DRIVER], stdin=subprocess.PIPE, stdout=subprocess.PIPE,
+    def __init__(self, pid):
+        exe = os.path.join(BIN, 'driver_' + pid.lower())
+        if not os.path.exists(exe):
+            raise InfraError('model driver not built: ' + exe)
+        self.p = subprocess.Popen([exe], stdin=subprocess.PIPE, stdout=subprocess.PIPE,
                                   text=True, bufsize=1 << 20)
         self.calls = 0
 
@@ -347,6 +348,7 @@ class Ctx:
         self.seed = seed
         self.rng = np.random.Generator(np.random.PCG64(seed))
         self.driver = None
+        self.other_drivers = {}
         self.evaluations = 0
         self.nontrivial_keys = set()
         self.samples = []
@@ -365,9 +367,14 @@ class Ctx:
     def n(self, quick, thorough):
         return quick if self.tier == 'quick' else thorough
 
-    def model(self):
+    def model(self, pid=None):
+        """the model driver of this property (or of another property `pid` whose model is reused)"""
+        if pid is not None and pid != self.pid:
+            if pid not in self.other_drivers:
+                self.other_drivers[pid] = Driver(pid)
+            return self.other_drivers[pid]
         if self.driver is None:
-            self.driver = Driver()
+            self.driver = Driver(self.pid)
         return self.driver
 
     def case(self, key=None, sample=None, bucket=None):
@@ -414,6 +421,8 @@ class Ctx:
     def close(self):
         if self.driver is not None:
             self.driver.close()
+        for d in self.other_drivers.values():
+            d.close()
 
 
 def write_evidence(ctx, aud, rule, assumptions, extra=None, nviol=0):
